@@ -104,7 +104,7 @@ def r1_who(report, repo):
           'TestState.abort called only from _execute_test_teardown',
           'TestState.abort() is called from %s, outside the teardown ladder' %
           owner)
-  report.expect_instances(rule, nf, 3, 'finaliser call sites')
+  report.expect_instances(rule, nf, 1, 'finaliser call sites')
   # writers of <...>.test_record.outcome or of a test-level Outcome value
   nw = 0
   for m, stmt, kind, tgt in core.attr_write_sites(repo, 'outcome'):
